@@ -219,7 +219,9 @@ def handle (j : Json) : Except String Json := do
   let timeout ← Driver.getBool j "timeout"
   let ign ← Driver.getBool j "ignore_error"
   let progs ← (← Driver.getArr j "threads").toList.mapM parseProg
-  let c0 := init cap maxEnq timeout ign progs
+  let keep := (j.getObjValAs? Bool "keep_partial").toOption.getD false
+  let c00 := init cap maxEnq timeout ign progs
+  let c0 : Cfg := { c00 with sh := { c00.sh with keepPartial := keep } }
   match j.getObjValAs? String "op" with
   | .ok "cover" => handleCover j c0
   | .ok op => throw s!"unknown op {op}"
